@@ -1364,6 +1364,18 @@ func (x *Exec) valuesEqual(st *State, l, r V, lt, rt types.Type) string {
 	}
 	if l.K == KTuple && r.K == KTuple {
 		if _, isIface := lt.Underlying().(*types.Interface); isIface {
+			// an interface value is nil exactly when its type word is nil
+			isZero := func(v V) bool {
+				a, _, ok1 := litVal(v.Fs[0].T)
+				b, _, ok2 := litVal(v.Fs[1].T)
+				return ok1 && ok2 && a == 0 && b == 0
+			}
+			if isZero(r) {
+				return eq(l.Fs[0].T, bvLit(0, 64))
+			}
+			if isZero(l) {
+				return eq(r.Fs[0].T, bvLit(0, 64))
+			}
 			return and(eq(l.Fs[0].T, r.Fs[0].T), eq(l.Fs[1].T, r.Fs[1].T))
 		}
 		if _, isSlice := lt.Underlying().(*types.Slice); isSlice {
